@@ -14,9 +14,9 @@ from . import core, report
 PROPS = {}
 
 
-def reg(prop, module, configs=("default",), fn="check", tier="quick", level="other"):
+def reg(prop, module, configs=("default",), fn="check", tier="quick", level="other", per_config=True):
     PROPS.setdefault(prop, {"rules": [], "level": level})
-    PROPS[prop]["rules"].append({"module": module, "fn": fn, "configs": tuple(configs), "tier": tier})
+    PROPS[prop]["rules"].append({"module": module, "fn": fn, "configs": tuple(configs), "tier": tier, "per_config": per_config})
     if level != "other":
         PROPS[prop]["level"] = level
 
@@ -74,6 +74,19 @@ def main(argv):
         try:
             if len(r["configs"]) == 1:
                 res = fn(facts[r["configs"][0]])
+            elif r.get("per_config"):
+                res = []
+                for c in r["configs"]:
+                    rc = fn(facts[c])
+                    for one in (rc if isinstance(rc, list) else [rc]):
+                        tag = "[%s] " % c
+                        for inst in one.instances:
+                            inst["key"] = inst["key"].replace(one.rule + " ", one.rule + " " + tag, 1)
+                        for f_ in one.findings:
+                            f_.key = f_.key.replace(one.rule + " ", one.rule + " " + tag, 1)
+                        one.errors = [tag + e for e in one.errors]
+                        one.rule = one.rule
+                        res.append(one)
             else:
                 res = fn({c: facts[c] for c in r["configs"]})
         except core.FactsError as e:
